@@ -171,11 +171,18 @@ def chunks(rng, s, p_split=0.4):
         ops = [("query", s.query)] + ([("mutation", s.mutation)] if s.mutation else []) + ([("subscription", s.subscription)] if s.subscription else [])
         # upstream deliberately refuses `extend schema { mutation: Mutation }` when a type with the default root name
         # exists (tests/functional/regressions/issue278): only renamed roots are moved into a schema extension
+        # schema directives may sit on the definition, on an operation-carrying extension, or on a directive-only extension
+        where = rng.choice(["def", "def", "ext-ops", "ext-only"]) if (sd or ni) and rng.random() < max(p_split, 0.0) * 1.5 else "def"
+        dtext = print_directives(sd) + ni
         if len(ops) > 1 and rng.random() < p_split and not any(o[1] in ("Mutation", "Subscription") for o in ops[1:]):
-            out.append("schema%s%s {\n  query: %s\n}" % (print_directives(sd), ni, s.query))
-            out.append("extend schema {\n%s\n}" % "\n".join("  %s: %s" % o for o in ops[1:]))
+            out.append("schema%s {\n  query: %s\n}" % (dtext if where == "def" else "", s.query))
+            if where == "ext-only":
+                out.append("extend schema%s" % dtext)
+            out.append("extend schema%s {\n%s\n}" % (dtext if where == "ext-ops" else "", "\n".join("  %s: %s" % o for o in ops[1:])))
         else:
-            out.append("schema%s%s {\n%s\n}" % (print_directives(sd), ni, "\n".join("  %s: %s" % o for o in ops)))
+            out.append("schema%s {\n%s\n}" % (dtext if where != "ext-only" else "", "\n".join("  %s: %s" % o for o in ops)))
+            if where == "ext-only":
+                out.append("extend schema%s" % dtext)
     return out
 
 
